@@ -36,9 +36,14 @@ class ModelIndex(list):
                 out.append(x)
         return ModelIndex(out)
 
-    def sort_values(self):
-        nn = sorted(x for x in self if x == x)
-        return ModelIndex(nn + [x for x in self if x != x])
+    def sort_values(self, return_indexer=False, ascending=True, **kw):
+        if kw or not ascending:
+            raise Unsupported("Index.sort_values options")
+        order = sorted((i for i, x in enumerate(self) if x == x), key=lambda i: self[i]) + [i for i, x in enumerate(self) if x != x]
+        out = ModelIndex([self[i] for i in order])
+        if return_indexer:
+            return out, A([int(i) for i in order], "int64")
+        return out
 
     def get_indexer(self, target):
         t = target.cells if isinstance(target, A) else list(target)
@@ -152,6 +157,9 @@ def run_case(E, case, prop):
             except (Unsupported, OutsideModel):
                 raise
             except Exception as e:      # noqa: BLE001
+                from ..runtime import _model_gap
+                if _model_gap(e):
+                    raise Unsupported("model gap: " + _model_gap(e)) from e
                 res["verdict"] = "sat"
                 res["subcases"] += 1
                 if len(res["candidates"]) < 3:
